@@ -561,6 +561,26 @@ func TestC01Delivery(t *testing.T) {
 			if s.ip == "127.0.0.1" && !dst.IP.IsLoopback() {
 				continue // no real caller does this (no return path)
 			}
+			if rapid.IntRange(0, 19).Draw(t, "rebind") == 7 {
+				// the socket is closed, its address is bound again by a new socket, and the
+				// old one is closed a second time (deferred Close after an explicit one):
+				// from now on the NEW socket is "the open socket bound to the address"
+				ri := rapid.IntRange(0, len(w.socks)-1).Draw(t, "rsock")
+				old := w.vs[ri]
+				ms := w.socks[ri]
+				if err := old.Close(); err != nil {
+					t.Fatalf("Close of s%d: %v", ri, err)
+				}
+				cn, err := w.vh[ms.host.idx].ListenUDP("udp", &net.UDPAddr{IP: net.ParseIP(ms.ip), Port: ms.port})
+				if err != nil {
+					t.Fatalf("C13/C01: re-binding %s:%d after Close failed: %v", ms.ip, ms.port, err)
+				}
+				w.vs[ri] = cn.(vnet.UDPConnLike)
+				_ = old.Close()
+				c.Label("socket-rebound")
+				c.Op("rebind s%d", ri)
+				t.Logf("socket s%d (%s:%d) closed, re-bound, old one closed again", ri, ms.ip, ms.port)
+			}
 			f := w.sendAndCheck(si, dst, size, why)
 			if f != nil {
 				seen = append(seen, f)
